@@ -23,7 +23,7 @@ NEnv == Len(SelectSeq(plan, LAMBDA h : h.a # "quiet"))
 
 (* one fixed schedule of the internal steps *)
 Int1 == HzeCmd \/ HzeMsg \/ InCheck
-Int2 == EInit \/ Sleep100 \/ LaunchOK \/ LaunchFail
+Int2 == EInit \/ Sleep100 \/ Launch \/ LaunchStore \/ LaunchFail
 Int3 == ReadFwd \/ ReadIgnore \/ ReadEOF \/ Break
 Int4 == WaitReturns \/ WStore \/ WMsg \/ WArm \/ WCancel
 Int5 == Kill
